@@ -148,7 +148,26 @@ def install_stubs(I, repo, trace, n_records, record_size):
                     recs.append(Obj("Container", OrderedDict(record_start=Const(i * record_size), preamble=Obj("Container", OrderedDict(record_type=Const(code), record_length=Const(record_size))),
                                                              data=Obj("Container", OrderedDict(start=Const(i * record_size + PREFIX), stop=Const((i + 1) * record_size))))))
                 return ListLit(recs)
-            return Obj("Struct", OrderedDict(parse=Fn("py", impl=parse, name="parse")))
+
+            def parse_stream(I2, a2, k2):
+                # construct's contract for a struct that ends in Seek(record end): every record reads its fixed prefix from the
+                # stream (a short read is a StreamError), notes the data start (Tell) and seeks to the end of the record - a
+                # seek beyond the end of the file does not fail
+                stream = a2[0] if a2 else None
+                if not isinstance(stream, Obj) or "read" not in stream.fields:
+                    raise ShapeError("parse_stream is not given the model file")
+                recs = []
+                for i in range(n):
+                    start = _const_int(I2.call(stream.fields["tell"], [], {}))
+                    blk = I2.call(stream.fields["read"], [Const(PREFIX)], {})
+                    got = _bytes_len(blk)
+                    if got is None or got < PREFIX:
+                        raise _Raise(f"StreamError: stream read less than specified amount, expected {PREFIX}, found {got}")
+                    I2.call(stream.fields["seek"], [Const(start + record_size)], {})
+                    recs.append(Obj("Container", OrderedDict(record_start=Const(start), preamble=Obj("Container", OrderedDict(record_type=Const(code), record_length=Const(record_size))),
+                                                             data=Obj("Container", OrderedDict(start=Const(start + PREFIX), stop=Const(start + record_size))))))
+                return ListLit(recs)
+            return Obj("Struct", OrderedDict(parse=Fn("py", impl=parse, name="parse"), parse_stream=Fn("py", impl=parse_stream, name="parse_stream")))
         return Obj("Struct", OrderedDict(__getitem__=Fn("py", impl=repeat, name="__getitem__")))
     sc.vars["record_types"] = DictS(OrderedDict([(10, struct_for(10)), (11, struct_for(11))]))
     sc.vars["signal_data_record"] = sc.vars["record_types"].items[10]
